@@ -132,7 +132,7 @@ def registry_part(run: Run, tier: str, seed: int) -> None:
         seqs = rnd.sample(seqs, 400)
     cases = [{"ops": list(s) + [("create", 3), ("resolve", 3), ("resolve", 0), ("discard", 3)]} for s in seqs]
     # histories walked by TLC on Docs.tla (create / resolve / discard / transplant of a reference object between documents)
-    nwalk = 600 if tier == "quick" else 6000
+    nwalk = 600 if tier == "quick" else 3000
 
     def walks():
         r = tlc.must_ok(tlc.run("Docs", "Docs_sim.cfg", workers=1, timeout=1800,
@@ -188,6 +188,8 @@ def run_engine(prop: str, tier: str, seed: int) -> int:
     long3 = [c for c in chains if len(c["ch"]) == 3]
     if tier == "quick":
         long3 = rnd.sample(long3, 25000)
+    elif len(long3) > 150000:
+        long3 = rnd.sample(long3, 150000)
     ext = model_chains(run, "MC_Scoping_emit_ext.cfg") if prop == "C10" else []      # inherit (s) a, set values, formals
     rex = tlc.must_ok(tlc.run("MC_Scoping", "MC_Scoping_ext.cfg", workers=8, timeout=3600), "MC_Scoping ext") if prop == "C10" else None
     if rex is not None:
